@@ -688,6 +688,13 @@ def run(rep, tier):
     except AnalysisBroken as ex:
         rep.broken.append(str(ex))
     rep.min_instances('E3.decode-buffer', 4)
+    # one raw value skipped from any alignment: start / end / no stray read, byte by byte (sv/scaneval.py; shared by C10, C11, C15, C20)
+    from .. import scaneval
+    for cfg6 in (('K1',) if tier == 'quick' else ('K1', 'K3')):
+        try:
+            scaneval.clause(get_facts(cfg6), rep, tier)
+        except AnalysisBroken as ex:
+            rep.broken.append(str(ex))
     rep.trust('clang 14 front end', 'zone analysis and callee summaries of C11', 'contract of parseStringInplace: scans to the first unescaped quote with VEC_LEN-byte block loads')
     rep.assumptions += [
         'decides only the clause "keys are matched by their decoded value" (private decode buffer contains the closing quote, has VEC_LEN-1 slack, ownership flag, error exit)',
